@@ -1,4 +1,6 @@
 import CatiiProofs.IndxTop
+import CatiiProofs.IndxSaveGen
+import CatiiProofs.IndxLoadGen
 /-!
 # C11 — INDX files are byte-for-byte the documented layout
 
@@ -73,6 +75,40 @@ theorem reader_accepts_layout (b : Bytes) (es : List Entry) (c wi wr : Nat)
   have hv : Gen.indxVersion.length = 4 := by decide
   simp only [encodeWith, List.length_append, encLE_length, hm, hv] at hsize
   omega
+
+/-! ### the writer REGENERATED from `IndxIO.save` on every run (`tools/translate_indx.py`)
+
+`Gen.saveProgram` is the list of writes the current source performs (constant, `struct.pack` width and field, coordinate
+matrix, lengths, row ids - in source order), `Gen.bufferSizeGen` the size formula it evaluates before writing.  The
+translator also checks how the source defines the things those writes depend on (the word size is
+`fit_dtype(max(max(index), common)).itemsize`, the matrix is cast to it, lengths and row ids run over the same key list). -/
+
+/-- what the regenerated writer program puts into the file IS the documented layout with the narrowest word size, and the
+size field it writes is what the regenerated formula computes - for every accepted input -/
+theorem generated_writer_produces_layout (es : List Entry) (c : Nat) (h : InScope es c) :
+    Layout (runW ⟨es, c, arityOf es, indexWordSize es c, 4,
+        Gen.bufferSizeGen es.length (arityOf es) (indexWordSize es c) 4 (es.map (·.rowids.length)).sum⟩ Gen.saveProgram)
+      es c (indexWordSize es c) 4 := by
+  have h1 := generated_writer_is_save es c h
+  have h2 := (writer_only_layout es c _ h1).2
+  exact h2
+
+/-- the size the regenerated formula computes is the real payload length (so `f.tell() == 16 + buffer_size` holds) -/
+theorem generated_size_is_payload_length (es : List Entry) (c wi wr : Nat) (har : ∀ e ∈ es, e.coords.length = arityOf es) :
+    Gen.bufferSizeGen es.length (arityOf es) wi wr (es.map (·.rowids.length)).sum
+      = (payload es c (arityOf es) wi wr).length := by
+  rw [bufferSizeGen_eq, payload_length es c (arityOf es) wi wr har]
+
+/-- the reads of the current `IndxIO.load` (`Gen.loadProgram`, regenerated) recover the data from ANY file laid out per the
+documentation with legal word sizes - including sizes the writer would not choose and 1/2/8-byte row-id words -/
+theorem generated_reader_accepts_layout (b : Bytes) (es : List Entry) (c wi wr : Nat)
+    (hlay : Layout b es c wi wr) (hfit : Fits es c wi wr) (hsize : b.length < 16 + 2^64) :
+    runR Gen.loadProgram b = .ok (es, c, wr) := by
+  rw [runR_loadProgram]; exact reader_accepts_layout b es c wi wr hlay hfit hsize
+
+example : runW ⟨[⟨[1, 0], [3, 5]⟩], 0, 2, 1, 4, 22⟩ Gen.saveProgram =
+    [73,78,68,88, 48,48,48,49, 22,0,0,0,0,0,0,0, 2, 1,0,0,0, 1, 0, 1,0, 4, 2,0,0,0, 3,0,0,0, 5,0,0,0] := by
+  decide +kernel
 
 /-! Non-vacuity: a two-entry, two-axis index with a common value wider than every coordinate. -/
 example : InScope [⟨[1, 0], [0, 4294967295]⟩, ⟨[2, 1], []⟩] 70000 := by
